@@ -48,11 +48,17 @@ def build_runner(case, log, workdir=None):
     combos = [tuple(c) for c in case["combos"]]
     plans = cfg["plan"]
 
+    # the Python values behind the value ids and the fixed parameters: the user may assign new ones between two simulate() calls
+    state = {"values": pc.VALUES, "fixed": dict(pc.FIXED)}
+
     def var_of(params):
         vals = []
         for p in range(len(grid)):
             x = params[pc.NAMES[p]]
-            ids = [k for k, val in pc.VALUES[p].items() if pc.same_value(x, val)]
+            ids = [k for k, val in state["values"][p].items() if pc.same_value(x, val)]
+            if not ids:
+                log.append(["bad", 0, f"the iteration was handed {pc.NAMES[p]} = {x!r}, which is not a value of the current grid"])
+                return 1
             vals.append(ids[0])
         return combos.index(tuple(vals)) + 1 if grid else 1
 
@@ -79,7 +85,7 @@ def build_runner(case, log, workdir=None):
             if grid and (current_params.unpack_index != v - 1 or current_params.get_num_unpacked_variations() != len(combos)):
                 log.append(["bad", v, f"unpack_index {current_params.unpack_index} / {current_params.get_num_unpacked_variations()} variations "
                                       f"for combination {v} of {len(combos)}"])
-            for k, val in pc.FIXED.items():
+            for k, val in state["fixed"].items():
                 if current_params[k] != val:
                     log.append(["bad", v, f"fixed parameter {k} is {current_params[k]!r} in the variation"])
             a = self.attempt.get(v, 0) + 1
@@ -99,6 +105,12 @@ def build_runner(case, log, workdir=None):
             r.add_new_result("num", Result.RATIOTYPE, 2 ** (a - 1), 2 ** 20)
             r.add_new_result("cho", Result.CHOICETYPE, a % 3, 3)
             r.add_new_result("mis", Result.MISCTYPE, a)
+            # a result that only some combinations ever update (an event counter): the others keep a never-updated result,
+            # which still is that combination's stored result
+            evt = Result("evt", Result.SUMTYPE)
+            if v % 2 == 0:
+                evt.update(1)
+            r.add_result(evt)
             return r
 
         def _keep_going(self, current_params, current_sim_results, current_rep):
@@ -133,7 +145,13 @@ def build_runner(case, log, workdir=None):
         def _on_simulate_finish(self):
             log.append(["call", 0, 0, "simfinish"])
 
-    return Runner()
+    # the stop rule and the iteration may be inherited from an intermediate class (as the simulators under apps/ do)
+    class Derived(Runner):
+        pass
+
+    r = Derived() if len(case["calls"]) % 2 else Runner()
+    r.state = state
+    return r
 
 
 def decode(tokval):
@@ -143,7 +161,7 @@ def decode(tokval):
 
 def check_results(lst_of, stored, what):
     """lst_of(name) -> list of Result objects (one per stored entry)"""
-    for name in ("tok", "num", "cho", "mis", "num_skipped_reps"):
+    for name in ("tok", "num", "cho", "mis", "evt", "num_skipped_reps"):
         lst = lst_of(name)
         if len(lst) != len(stored):
             return f"{what}: {len(lst)} stored results for {name}, expected {len(stored)}"
@@ -171,6 +189,10 @@ def check_results(lst_of, stored, what):
         mis = lst_of("mis")[i]
         if mis.get_result() != max(m):
             return f"{what}: variation {st['v']}: misc result {mis.get_result()} is not the last merged attempt {max(m)}"
+        evt = lst_of("evt")[i]
+        want_evt = len(m) if st["v"] % 2 == 0 else 0
+        if evt.num_updates != want_evt or (want_evt and evt.get_result() != want_evt):
+            return f"{what}: variation {st['v']}: the event counter holds {evt.num_updates} updates, expected {want_evt}"
         sk = lst_of("num_skipped_reps")[i]
         if int(sk.get_result()) != st["skips"]:
             return f"{what}: variation {st['v']}: num_skipped_reps {sk.get_result()} != {st['skips']}"
@@ -206,6 +228,16 @@ def run_case(case):
                 # what the user keeps from the earlier call is a value: the next simulate() must not change it
                 earlier = (r.results, [x.get_result() for x in r.results["tok"]], list(r.results.runned_reps))
         r.rep_max = cfg["repmax"] if sim == 0 else cfg["repmax2"]
+        if sim >= 1 and not single and (len(case["calls"]) // 2) % 2 == 0:
+            # between two simulate() calls the user assigns other values (item syntax) to the unpacked parameters - same
+            # lengths - and to a fixed one: the next run works on the NEW grid
+            newvals = [{k: (v + 100.0 if not isinstance(v, str) else v + "x") for k, v in d.items()} for d in pc.VALUES]
+            for p in range(len(case["grid"])):
+                vals = [newvals[p][x] for x in case["grid"][p]]
+                r.params[pc.NAMES[p]] = np.array(vals) if p == 2 else vals
+            r.params["zz_scalar"] = 8
+            r.state["values"] = newvals
+            r.state["fixed"]["zz_scalar"] = 8
         for sim in [sim]:
             del log[:]
             try:
@@ -272,7 +304,7 @@ def run_case(case):
                     import itertools
                     g = case["grid"]
                     for fx in itertools.product(*[[0] + list(vals) for vals in g]):
-                        fixed = {pc.NAMES[p]: pc.VALUES[p][x] for p, x in enumerate(fx) if x}
+                        fixed = {pc.NAMES[p]: r.state["values"][p][x] for p, x in enumerate(fx) if x}
                         idx = [i for i, c in enumerate(case["combos"]) if all(x == 0 or c[p] == x for p, x in enumerate(fx))]
                         got = r.results.get_result_values_list("tok", fixed_params=fixed)
                         exp = [float(sum(2 ** (a - 1) for a in case["stored"][i]["merged"])) for i in idx]
